@@ -4,7 +4,7 @@ operations PEGTL uses (construct from T&&, explicit operator bool, operator*, re
 drops a trivially destructible payload.  Listed in the evidence as part of the trusted base."""
 from cxxast import Unsupported, strip_cv
 
-MODELLED = ('std::optional',)
+MODELLED = ('std::optional', 'std::unique_ptr')
 
 
 class ModelMixin:
@@ -20,6 +20,13 @@ class ModelMixin:
 
     def model_struct(self, rid):
         rec = self.ast.record_def(rid)
+        if self.ast.qualname(rec) == 'std::unique_ptr':
+            # owning pointer to an array: only get() is used by buffer_input; ownership/deallocation is not modelled
+            pts = self.optional_payload(rec)
+            if pts.endswith('[]'):
+                pts = pts[:-2].strip()
+            pti = self.tinfo(pts + ' *', rec)
+            return 'struct %s { /* trusted model of %s */\n  %s;\n};' % (self.rec_tag(rid), self.rec_pretty(rid), self.decl_of(pti, '_p'))
         pts = self.optional_payload(rec)
         pti = self.tinfo(pts, rec)
         if pti['kind'] == 'rec' and not pti['suf'] and not self.rec_trivial_dtor(pti['rec']):
@@ -29,6 +36,8 @@ class ModelMixin:
 
     def model_dtor(self, rid, cexpr, cx):
         if self.model_record(rid):
+            if self.ast.qualname(self.ast.record_def(rid)) == 'std::unique_ptr':
+                return []
             return ['%s._has = 0;' % cexpr]
         return None
 
@@ -58,6 +67,10 @@ class ModelMixin:
             return None
         name = fd.get('name')
         obj = '(*%s)' % this_ptr
+        if self.ast.qualname(rec) == 'std::unique_ptr':
+            if name == 'get':
+                return ('%s._p' % obj,)
+            raise Unsupported('std::unique_ptr::%s is not in the trusted model' % name)
         if name == 'operator bool' or name == 'has_value':
             return ('%s._has' % obj,)
         if name == 'operator*' or name == 'value':
